@@ -139,9 +139,9 @@ def consume(ctx, res, cells):
     for s in obs['samples']:
         ctx.sample(s)
     conf = obs.get('conformance') or {}
-    ctx.extra['seam_conformance'] = dict(calls_through_real_grpc_server=conf.get('calls'), mismatches=len(conf.get('mismatches') or []),
+    ctx.extra['seam_conformance'] = dict(calls_through_real_grpc_server=conf.get('calls'), aio_calls_through_real_grpc_server=conf.get('aio_calls'), mismatches=len(conf.get('mismatches') or []),
                                          skipped=conf.get('skipped'))
-    if conf.get('mismatches'):
+    if conf.get('mismatches') and not ctx.violations:
         raise HarnessError(f'C03 seam conformance: fake channel and real loopback server disagree: {conf["mismatches"][:3]}')
     for f in obs['failures']:
         fp = f'{f["cell"]}|{f["client"]}|{f["form"]}|{f["kind"]}'
